@@ -89,6 +89,17 @@ pub struct C10Case {
     pub fw: FwSpec,
     /// frameworks encoded before with the same encoder object (framework, with range?)
     pub warmup: Vec<(FwSpec, bool)>,
+    /// padded case: the framework has `n_total` arguments with compact ids; the core arguments of
+    /// `fw` sit at the ids `positions`, every other argument is an isolated self-attacker (never in
+    /// a conflict-free set, never in a range, and its presence rules out stable extensions)
+    #[serde(default)]
+    pub pad: Option<Pad>,
+}
+
+#[derive(Clone, Debug, Serialize, Deserialize)]
+pub struct Pad {
+    pub n_total: usize,
+    pub positions: Vec<usize>,
 }
 
 /// Recording backend: the observation point named by the property.
@@ -139,6 +150,138 @@ fn encode(enc: &dyn ConstraintsEncoder<usize>, af: &AAFramework<usize>, range: b
     rec
 }
 
+/// Padded variant: a core of <= 8 arguments among 65..300, the rest isolated self-attackers. The
+/// reference is the core's own semantics: the conflict-free / admissible / complete sets of the
+/// whole framework are exactly those of the core, the range of a set is its range in the core, and
+/// there is no stable set as soon as one filler exists.
+fn exec_padded(case: &C10Case) -> RunResult {
+    use crustabri::aa::ArgumentSet;
+    let mut r = RunResult::default();
+    let pad = case.pad.as_ref().unwrap();
+    let core = build_usize(&case.fw);
+    let (raf, _labels, _ids) = core.store.to_ref();
+    let k = raf.n;
+    if k != pad.positions.len() || k > 8 || pad.positions.iter().any(|p| *p >= pad.n_total) {
+        r.skipped = Some("padding does not fit the core (shrinker artefact)".into());
+        return r;
+    }
+    let n = pad.n_total;
+    let labels: Vec<usize> = (0..n).collect();
+    let mut af = AAFramework::new_with_argument_set(ArgumentSet::new_with_labels(&labels));
+    for (a, b) in raf.attacks() {
+        let _ = af.new_attack(&pad.positions[a], &pad.positions[b]);
+    }
+    let fillers: Vec<usize> = (0..n).filter(|i| !pad.positions.contains(i)).collect();
+    for f in &fillers {
+        let _ = af.new_attack(f, f);
+    }
+    let enc = case.enc.make();
+    let site = |v: Violation| v.at("enc", format!("{:?}", case.enc)).at("range", case.range).at("padded", true);
+    let rec = match catch_unwind(AssertUnwindSafe(|| encode(enc.as_ref(), &af, case.range))) {
+        Ok(rec) => rec,
+        Err(_) => {
+            r.violations.push(site(Violation::new("C10", "panic", format!("{:?}: encoding a padded framework of {} arguments panicked", case.enc, n))));
+            return r;
+        }
+    };
+    r.count("padded_cases", 1);
+    r.count("cnf_clauses", rec.d.clauses.len() as u64);
+    r.digest.u64(rec.d.clauses.len() as u64);
+    let lit_of = |id: usize| isize::from(enc.arg_to_lit(af.argument_set().get_argument(&id).unwrap())) as i32;
+    let lits: Vec<i32> = (0..n).map(lit_of).collect();
+    let first_range = if case.range { enc.first_range_var(n) } else { 0 };
+    let mut seen = std::collections::HashMap::new();
+    for (i, l) in lits.iter().enumerate() {
+        if *l <= 0 {
+            r.violations.push(site(Violation::new("C10", "arg-literal", format!("arg_to_lit of argument {} is the negative literal {}", i, l))));
+            return r;
+        }
+        if let Some(j) = seen.insert(*l, i) {
+            r.violations.push(site(Violation::new("C10", "arg-literal", format!("arguments {} and {} are mapped to the same variable {}", j, i, l))));
+            return r;
+        }
+        if case.range && (*l as usize) >= first_range && (*l as usize) < first_range + n {
+            r.violations.push(site(Violation::new("C10", "arg-literal", format!("variable {} of argument {} lies in the range-variable interval", l, i))));
+            return r;
+        }
+    }
+    let base = case.enc.base();
+    let mut rng = Rng::new(0xC10 ^ n as u64);
+    let fmt = |s: u32| format!("{{{}}}", (0..k).filter(|i| s >> i & 1 == 1).map(|i| format!("#{}", pad.positions[i])).collect::<Vec<_>>().join(","));
+    // a filler can never be a member
+    for _ in 0..4.min(fillers.len()) {
+        let f = fillers[rng.below(fillers.len())];
+        let mut steps = 4_000_000u64;
+        if let Outcome::Sat(_) = rec.d.solve(&[lits[f]], Policy::MaxTrue, &mut rng, 0, &mut steps) {
+            r.violations.push(site(Violation::new("C10", "set-spurious", format!("{:?}: the CNF has a model containing the self-attacking argument #{} ({} arguments)", case.enc, f, n))));
+            return r;
+        }
+    }
+    for s in 0..(1u32 << k) {
+        let mut assumptions: Vec<i32> = fillers.iter().map(|f| -lits[*f]).collect();
+        for i in 0..k {
+            assumptions.push(if s >> i & 1 == 1 { lits[pad.positions[i]] } else { -lits[pad.positions[i]] });
+        }
+        let expected = sigma(&raf, base, s) && !(base == Base::St && !fillers.is_empty());
+        let mut steps = 4_000_000u64;
+        match rec.d.solve(&assumptions, Policy::MaxTrue, &mut rng, 0, &mut steps) {
+            Outcome::Budget => {
+                r.skipped = Some("DPLL budget".into());
+                return r;
+            }
+            Outcome::Unsat => {
+                if expected {
+                    r.violations.push(site(Violation::new("C10", "set-missing", format!("{:?}: {} is a {:?} set of the padded framework ({} arguments, core at {:?}) but the CNF has no model with exactly these arguments", case.enc, fmt(s), base, n, pad.positions))));
+                    return r;
+                }
+            }
+            Outcome::Sat(_) => {
+                if !expected {
+                    r.violations.push(site(Violation::new("C10", "set-spurious", format!("{:?}: the CNF of the padded framework ({} arguments, core at {:?}) has a model whose arguments are {}, which is not a {:?} set", case.enc, n, pad.positions, fmt(s), base))));
+                    return r;
+                }
+                if case.range {
+                    let range = raf.range(s);
+                    // (a) range(S) itself is reachable, with every filler's range variable false
+                    let mut asm = assumptions.clone();
+                    for i in 0..k {
+                        let v = (first_range + pad.positions[i]) as i32;
+                        asm.push(if range >> i & 1 == 1 { v } else { -v });
+                    }
+                    for f in fillers.iter().take(8) {
+                        asm.push(-((first_range + *f) as i32));
+                    }
+                    let mut steps = 4_000_000u64;
+                    if let Outcome::Unsat = rec.d.solve(&asm, Policy::MaxTrue, &mut rng, 0, &mut steps) {
+                        r.violations.push(site(Violation::new("C10", "range-not-reachable", format!("{:?}: no model of {} has its range variables equal to its range (padded, {} arguments)", case.enc, fmt(s), n))));
+                        return r;
+                    }
+                    // (b) no range variable true outside the range: core arguments and a sample of fillers
+                    let mut outside: Vec<usize> = (0..k).filter(|i| range >> i & 1 == 0).map(|i| pad.positions[i]).collect();
+                    for _ in 0..3.min(fillers.len()) {
+                        outside.push(fillers[rng.below(fillers.len())]);
+                    }
+                    for o in outside {
+                        let mut asm = assumptions.clone();
+                        asm.push((first_range + o) as i32);
+                        let mut steps = 4_000_000u64;
+                        if let Outcome::Sat(_) = rec.d.solve(&asm, Policy::MaxTrue, &mut rng, 0, &mut steps) {
+                            r.violations.push(site(Violation::new("C10", "range-spurious", format!("{:?}: with arguments {} the range variable of #{} can be true although it is outside the range (padded, {} arguments)", case.enc, fmt(s), o, n))));
+                            return r;
+                        }
+                    }
+                }
+            }
+        }
+    }
+    r.count(&format!("enc_{:?}_padded", case.enc), 1);
+    let mut d = Digest::default();
+    d.str(&serde_json::to_string(case).unwrap());
+    r.nontrivial = Some(d);
+    r.interleaving = Some(r.digest);
+    r
+}
+
 impl Property for C10 {
     fn id(&self) -> &'static str {
         "C10"
@@ -175,10 +318,38 @@ impl Property for C10 {
         let fw = draw(&mut rng);
         let range = enc.has_range() && rng.bool();
         let warmup = (0..rng.weighted(&[3, 4, 3])).map(|_| (draw(&mut rng), enc.has_range() && rng.bool())).collect();
-        serde_json::to_value(C10Case { enc, range, fw, warmup }).unwrap()
+        // 1 case in 2000: the same core padded to 65..300 arguments (large ids, ids equal modulo 64 or
+        // 256, long per-encoder tables) — checked on the subsets of the core
+        let pad = if !big && rng.chance(1, 2000) {
+            let mut st = RefStore::default();
+            for u in &fw.ops {
+                st.apply(u);
+            }
+            let k = st.live.len();
+            let n_total = *rng.pick(&[65usize, 66, 70, 100, 128, 129, 200, 257, 300]);
+            let mut positions: Vec<usize> = vec![];
+            while positions.len() < k {
+                let p = if !positions.is_empty() && rng.chance(1, 2) {
+                    // congruent to an earlier position modulo 64
+                    (positions[rng.below(positions.len())] + 64 * rng.range(1, 4)) % n_total
+                } else {
+                    rng.below(n_total)
+                };
+                if !positions.contains(&p) {
+                    positions.push(p);
+                }
+            }
+            if k >= 1 && k <= 8 { Some(Pad { n_total, positions }) } else { None }
+        } else {
+            None
+        };
+        serde_json::to_value(C10Case { enc, range, fw, warmup, pad }).unwrap()
     }
     fn exec(&self, case: &Value) -> RunResult {
         let case: C10Case = serde_json::from_value(case.clone()).expect("C10 case");
+        if case.pad.is_some() {
+            return exec_padded(&case);
+        }
         let mut r = RunResult::default();
         let enc = case.enc.make();
         // encoder-object history
